@@ -162,9 +162,11 @@ def resolvePrec (d : Directive) (args : List Arg) : Option (Option Nat × List A
 
 /-- the conversion itself, once width and precision are known.
 
-`strict = true` additionally refuses the two input classes on which igris is
-known to deviate (recorded findings C06-alt-zero, C06-c-nul); it is used only to
-state the `_partial` theorem — `isoFormat` itself is `strict = false`. -/
+`strict = true` additionally refuses the two input classes on which igris
+deviated until the `fix:` commits 8be88bc / ff2efab (former findings
+C06-alt-zero, C06-c-nul); it was used to state the `_partial` theorem, which is
+kept — `isoFormat` itself is `strict = false` and is what `printf_matches_iso`
+is about. -/
 def isoBody (pfmt : Nat → List Char) (strict : Bool) (d : Directive) (minus : Bool) (width : Nat)
     (prec : Option Nat) (args : List Arg) : Option (List Char × List Arg) :=
   let c := d.conv
@@ -202,7 +204,9 @@ def isoBody (pfmt : Nat → List Char) (strict : Bool) (d : Directive) (minus : 
     | .str mem :: as => (isoStr mem prec).map fun body => (pad minus width body, as)
     | _ => none
   else if c = 'p' then
-    if d.plus || d.space || d.hash || d.zero || prec.isSome || d.len ≠ .none then none else
+    -- `+` and space act on "signed conversions" only; whether p is one belongs to its
+    -- implementation-defined rendering (glibc: yes, igris: no) — here the flags have no effect
+    if d.hash || d.zero || prec.isSome || d.len ≠ .none then none else
     match args with
     | .ptr v :: as => some (pad minus width (pfmt v.toNat), as)
     | _ => none
